@@ -311,6 +311,9 @@ func c14Gen(r *verifh.Rng) []verifh.Section {
 	secs = append(secs, verifh.Section{Cfg: "via=fromdb accept=none rec=1", Ops: verifc14.ExhaustiveRaw("plain", rawLen)})
 	secs = append(secs, verifh.Section{Cfg: "via=named accept=user rec=1", Ops: verifc14.ExhaustiveRaw("ctx", rawLen)})
 	secs = append(secs, verifh.Section{Cfg: "via=onconn accept=none rec=0", Ops: verifc14.ExhaustiveRaw("ctx", rawLen)})
+	// two transactions in flight on one pool (the two SqlConn instances of the section share the *sql.DB / datasource)
+	secs = append(secs, verifh.Section{Cfg: "via=fromdb accept=none accept1=none rec=0", Ops: verifc14.ParOps(r, verifh.Scale(20, 200))})
+	secs = append(secs, verifh.Section{Cfg: "via=named accept=user accept1=none rec=0", Ops: verifc14.ParOps(r, verifh.Scale(10, 100))})
 	nsec := verifh.Scale(80, 1500)
 	for i := 0; i < nsec; i++ {
 		via := "fromdb"
